@@ -1,6 +1,9 @@
 package checks
 
 import (
+	"crypto/sha256"
+	"encoding/base64"
+	"encoding/hex"
 	"fmt"
 	"strings"
 	"sync"
@@ -169,10 +172,37 @@ func C14(r *Run) {
 					if text, ok := om["out"].(string); ok {
 						dec := map[string]any{"back": map[string]any{"$decode": f, "$value": text}}
 						lines = append(lines, evalEvent([]any{dec}, nil, tagged(map[string]any{"back": val}), nil, "decode inverts encode ("+f+")"))
+						// the same text decoded and re-encoded in ONE map: $value, $decode and $encode side by side
+						var st any = g.Pick(encStructural)
+						switch g.N(4) {
+						case 0:
+							st = []any{g.Pick(encStructural), g.Pick(encCodecs)}
+						case 1:
+							st = g.Pick(encCodecs)
+						}
+						pipe := map[string]any{"piped": map[string]any{"$value": text, "$decode": f, "$encode": st}}
+						lines = append(lines, evalEvent([]any{pipe}, nil, nil, nil, "decode and encode side by side"))
 					}
 				}
 			}
 			sessions = append(sessions, Sess{Lines: lines})
+		}
+	}
+	// environment values reach a byte-level codec exactly as they are, "$" characters included
+	for _, ev := range []string{"a$b", "pa$$word", "x$", "plain", "a $b c$"} {
+		env := map[string]string{"BKLV_V1": ev}
+		sum := sha256.Sum256([]byte(ev))
+		for _, c := range []struct {
+			arg  any
+			want string
+		}{{"base64", base64.StdEncoding.EncodeToString([]byte(ev))}, {"sha256", hex.EncodeToString(sum[:])},
+			{[]any{"join:+", "base64"}, base64.StdEncoding.EncodeToString([]byte(ev + "+" + ev))}} {
+			var val any = "$env:BKLV_V1"
+			if _, isList := c.arg.([]any); isList {
+				val = []any{"$env:BKLV_V1", `$"{$env:BKLV_V1}"`}
+			}
+			doc := map[string]any{"out": map[string]any{"$encode": c.arg, "$value": val}}
+			sessions = append(sessions, Sess{Lines: [][]byte{evalEvent([]any{doc}, env, tagged(map[string]any{"out": c.want}), nil, "environment value under a codec")}})
 		}
 	}
 	r.Logf("model C14: %d cases replayed (%d through the codec path); %d driver sessions", st.Replayed, needCases, len(sessions))
